@@ -14,7 +14,9 @@ import (
 	"hash/crc32"
 	"os"
 	"path/filepath"
+	"runtime"
 	"sort"
+	"time"
 
 	badger "github.com/dgraph-io/badger/v4"
 )
@@ -200,6 +202,7 @@ type m17Seq struct {
 	bounds  []m17Bound      // record boundaries of the current file with the spec at that point
 	reopens int
 	rejects int
+	dead    bool // the manifestFile's own MANIFEST no longer replays (F6 consequence): stop the sequence
 	maxLvl  uint32
 }
 
@@ -344,15 +347,24 @@ func (s *m17Seq) add(cs []m17Ch) {
 
 func (s *m17Seq) reopen() {
 	c := s.c
+	prevLive := s.mf.State()
 	s.mf.Close()
 	mf, ret, err := badger.VerifManifestOpen(s.dir, s.ext, s.thr)
 	st := m17Step{Reopen: true, Code: 5}
 	if err != nil {
 		st.Code = 6
 		s.steps = append(s.steps, st)
-		c.Oracle(false, "reopen-failed", "re-opening an intact MANIFEST failed: "+err.Error(), s.replayData(nil))
-		// recover a handle so that the sequence can continue
-		panic("C17 harness: reopen of an intact MANIFEST failed: " + err.Error())
+		sig := "reopen-failed"
+		if len(s.taint) > 0 && badger.VerifManifestErrClass(err) == "exists" {
+			sig = sigF6
+		}
+		c.Oracle(false, sig, "re-opening the MANIFEST written by this manifestFile failed: "+err.Error(), s.replayData(nil))
+		// correspondence: the model's reopen fails as well and leaves the state unchanged
+		c.Case("RunReopenFailed", fmt.Sprintf("(Run %s %d %s %s %s)", Zz(int64(s.thr)), s.ext, m17StepsTerm(s.steps), B(s.file()), m17ObsTerm(prevLive)),
+			J17{"thr": s.thr, "ext": s.ext, "steps": s.steps})
+		s.mf = nil
+		s.dead = true
+		return
 	}
 	s.mf = mf
 	s.reopens++
@@ -374,13 +386,21 @@ func (s *m17Seq) reopen() {
 // Run case + oracle "replay(file) = live = specification" at the current point
 func (s *m17Seq) checkpoint() {
 	c := s.c
+	if s.mf == nil {
+		return
+	}
 	file := s.file()
 	live := s.mf.State()
 	c.Case("Run", fmt.Sprintf("(Run %s %d %s %s %s)", Zz(int64(s.thr)), s.ext, m17StepsTerm(s.steps), B(file), m17ObsTerm(live)),
 		J17{"thr": s.thr, "ext": s.ext, "steps": s.steps})
 	rp, off, err := badger.VerifReplayManifest(badger.VerifManifestPath(s.dir), s.ext)
 	if err != nil {
-		c.Oracle(false, "replay-of-own-file-failed", "ReplayManifestFile failed on the file the manifestFile wrote: "+err.Error(), s.replayData(nil))
+		sig := "replay-of-own-file-failed"
+		if len(s.taint) > 0 && badger.VerifManifestErrClass(err) == "exists" {
+			sig = sigF6
+		}
+		c.Oracle(false, sig, "ReplayManifestFile failed on the file the manifestFile wrote: "+err.Error(), s.replayData(nil))
+		s.dead = true
 		return
 	}
 	c.Oracle(off == int64(len(file)), "replay-offset-not-filesize", "truncOffset of an intact MANIFEST is not its size", s.replayData(J17{"off": off}))
@@ -403,8 +423,40 @@ func (s *m17Seq) checkpoint() {
 	}
 }
 
+// applyManifestChange allocates one map per level up to tc.Level (uint32): a record with a valid
+// CRC and a huge Level makes the real replay allocate gigabytes. The harness never feeds such a
+// file to the implementation (nor to the model, whose grow_levels is unary).
+func m17SafeForReplay(data []byte) bool {
+	off := 8
+	for off+8 <= len(data) {
+		l := int(binary.BigEndian.Uint32(data[off : off+4]))
+		if l < 0 || off+8+l > len(data) {
+			return true
+		}
+		payload := data[off+8 : off+8+l]
+		if crc32.Checksum(payload, m17Castagnoli) != binary.BigEndian.Uint32(data[off+4:off+8]) {
+			return true
+		}
+		cs, err := badger.VerifUnmarshalChangeSet(payload)
+		if err != nil {
+			return true
+		}
+		for _, ch := range cs {
+			if ch.Level > 4096 {
+				return false
+			}
+		}
+		off += 8 + l
+	}
+	return true
+}
+
 // ReplayManifestFile on arbitrary bytes: correspondence case; returns the result
 func (c *Ctx) m17Replay(kind string, ext uint16, data []byte) (m17State, int64, error) {
+	if !m17SafeForReplay(data) {
+		c.Count("skipped-huge-level")
+		return m17State{}, 0, fmt.Errorf("skipped: huge level")
+	}
 	d := filepath.Join(os.Getenv("VERIF_SCRATCH_DIR"), "c17_replay")
 	if os.Getenv("VERIF_SCRATCH_DIR") == "" {
 		d = filepath.Join(os.TempDir(), fmt.Sprintf("verif_c17_replay_%d", os.Getpid()))
@@ -427,6 +479,9 @@ func (c *Ctx) m17Replay(kind string, ext uint16, data []byte) (m17State, int64, 
 
 // helpOpenOrCreateManifestFile on a directory holding `data` as MANIFEST (the MANIFEST part of Open)
 func (c *Ctx) m17OpenOn(ext uint16, data []byte) (ret m17State, live m17State, after []byte, err error) {
+	if !m17SafeForReplay(data) {
+		return ret, live, nil, fmt.Errorf("skipped: huge level")
+	}
 	d := c.m17NewDir()
 	defer os.RemoveAll(d)
 	p := badger.VerifManifestPath(d)
@@ -673,8 +728,11 @@ func (c *Ctx) m17Sequence(idx int) {
 		} else {
 			s.add(g.changeSet())
 		}
-		if c.Rng.Intn(4) == 0 || i == nSteps-1 {
+		if c.Rng.Intn(4) == 0 || i == nSteps-1 || s.dead {
 			s.checkpoint()
+		}
+		if s.dead {
+			return
 		}
 	}
 	s.sweeps(12, 8, 8, 3)
@@ -724,6 +782,40 @@ func (s *m17Seq) sweeps(nTrunc, nZero, nCorrupt, nOpen int) {
 	}
 }
 
+// rewrite-decision boundaries: deletions == threshold, deletions == ratio*(creations-deletions)
+func (c *Ctx) m17Boundary(idx int) {
+	_, ratio, _ := badger.VerifManifestConsts()
+	k := 1 + idx%2                   // creations - deletions at the boundary
+	thr := []int{0, 3, ratio * k, ratio*k - 1, ratio*k + 1, -1}[(idx/2)%6]
+	s, err := m17Open(c, thr, uint16(idx%3))
+	if err != nil {
+		panic(err)
+	}
+	defer s.close()
+	if thr == -1 && idx%4 < 2 { // creations = deletions = 0 > threshold: empty change sets
+		s.add(nil)
+		s.add(nil)
+		s.checkpoint()
+		return
+	}
+	n := ratio*k + k // after ratio*k deletions: deletions == ratio * (creations - deletions)
+	var cs []m17Ch
+	for i := 1; i <= n; i++ {
+		cs = append(cs, m17Ch{Id: uint64(i), Level: uint32(i % 7), Compression: uint32(i % 3)})
+	}
+	s.add(cs)
+	for i := 1; i <= ratio*k+2; i++ {
+		if idx%5 == 4 && i%3 == 0 {
+			s.add([]m17Ch{{Id: uint64(5000 + i), Op: 1}}) // unknown id: counts as a deletion all the same
+		} else {
+			s.add([]m17Ch{{Id: uint64(i), Op: 1}})
+		}
+		if i >= ratio*k-1 || i == thr || i == thr+1 {
+			s.checkpoint()
+		}
+	}
+}
+
 // every cut of a small file (exhaustive over the file's bytes)
 func (c *Ctx) m17AllCuts() {
 	s, err := m17Open(c, 10000, 0)
@@ -762,7 +854,7 @@ func m17Header(ext uint16, version uint16) []byte {
 }
 
 // protobuf payloads that are valid wire format but not what Marshal emits, and invalid ones
-func (c *Ctx) m17WeirdPayload() []byte {
+func (c *Ctx) m17WeirdPayload(forReplay bool) []byte {
 	var b []byte
 	v := func(x uint64) { b = binary.AppendUvarint(b, x) }
 	n := 1 + c.Rng.Intn(3)
@@ -775,12 +867,19 @@ func (c *Ctx) m17WeirdPayload() []byte {
 			case 0, 1, 2:
 				w(1 << 3)
 				w(uint64(c.Rng.Intn(6)))
-			case 3, 4:
+			case 3:
 				w(2 << 3)
 				w(uint64(c.Rng.Intn(3)))
+			case 4: // enum fields given a varint beyond int32: truncated to the low 32 bits, sign-extended
+				w(uint64(2+3*c.Rng.Intn(2)) << 3)
+				w(c.u64())
 			case 5:
 				w(3 << 3)
-				w(c.u64()) // uint32 field given a 64-bit varint: truncated
+				if forReplay { // uint32 field given a 64-bit varint: truncated to a small level
+					w(uint64(c.Rng.Intn(4))<<32 | uint64(c.Rng.Intn(300)))
+				} else {
+					w(c.u64())
+				}
 			case 6:
 				w(uint64(1+c.Rng.Intn(6)) << 3)
 				w(0) // explicit default
@@ -859,7 +958,7 @@ func (c *Ctx) m17Functions(i int) {
 		}
 		c.Case("UnmarshalRT", fmt.Sprintf("(Unmarshal %s %s)", B(enc), rt), J17{"b": fmt.Sprintf("%x", enc)})
 	case 1, 2: // Unmarshal of non-canonical / invalid wire data
-		b := c.m17WeirdPayload()
+		b := c.m17WeirdPayload(false)
 		back, err := badger.VerifUnmarshalChangeSet(b)
 		rt := "None"
 		if err == nil {
@@ -915,7 +1014,7 @@ func (c *Ctx) m17Malformed(i int) {
 		c.Oracle((err == nil) == isGood, "version-check", "version / external magic check wrong", J17{"h": h})
 	case 2: // valid CRC, odd payload
 		f := append(m17Header(ext, 8), m17Record(good)...)
-		f = append(f, m17Record(c.m17WeirdPayload())...)
+		f = append(f, m17Record(c.m17WeirdPayload(true))...)
 		f = append(f, m17Record(nil)...)
 		c.m17Replay("ReplayWeirdPayload", ext, f)
 	case 3: // replayed CREATE of an existing table / invalid op: applyChangeSet error inside replay
@@ -953,7 +1052,8 @@ func (c *Ctx) m17Malformed(i int) {
 
 // ---- fixed witnesses of the findings (replayed on every run) ----
 func (c *Ctx) m17Witnesses() {
-	// F6: [create 1]; [create 2; create 1] rejected, 2 stays in memory; deletes trigger a rewrite
+	// F6 (a),(b) = coq/A/ManifestWitness.v w6a, w6b: [create 1]; [create 2; create 1] rejected, 2 stays
+	// in memory; three deletes of unknown ids make the rewrite due, which persists table 2
 	{
 		s, err := m17Open(c, 2, 0)
 		if err != nil {
@@ -962,12 +1062,29 @@ func (c *Ctx) m17Witnesses() {
 		s.add([]m17Ch{{Id: 1}})
 		s.add([]m17Ch{{Id: 2}, {Id: 1}})
 		s.checkpoint()
-		for i := uint64(10); i < 14; i++ {
-			s.add([]m17Ch{{Id: i}})
-			s.add([]m17Ch{{Id: i, Op: 1}})
-		}
-		s.add([]m17Ch{{Id: 1, Op: 1}})
+		s.add([]m17Ch{{Id: 100, Op: 1}})
+		s.add([]m17Ch{{Id: 101, Op: 1}})
+		s.add([]m17Ch{{Id: 102, Op: 1}})
 		s.checkpoint()
+		s.reopen()
+		s.checkpoint()
+		s.close()
+	}
+	// F6 (c) = w6c: [delete 1; create 5; create 5] rejected after deleting 1 in memory; [create 1]
+	// is then accepted and appended: the MANIFEST creates table 1 twice and no longer replays
+	{
+		s, err := m17Open(c, 2, 0)
+		if err != nil {
+			panic(err)
+		}
+		s.add([]m17Ch{{Id: 1}})
+		s.add([]m17Ch{{Id: 1, Op: 1}, {Id: 5}, {Id: 5}})
+		s.add([]m17Ch{{Id: 1}})
+		s.checkpoint()
+		if !s.dead {
+			c.Oracle(false, "F6-witness-c-not-reproduced", "witness w6c: the MANIFEST still replays", s.replayData(nil))
+		}
+		s.reopen()
 		s.close()
 	}
 	// F5 and F16: [create 1..10] appended to a fresh file; cut inside the payload
@@ -993,14 +1110,82 @@ func (c *Ctx) m17Witnesses() {
 	}
 }
 
+// watchdog: the MANIFEST code allocates per level number; never let a harness bug eat the machine
+func m17MemoryWatchdog() {
+	go func() {
+		for {
+			time.Sleep(200 * time.Millisecond)
+			var ms runtime.MemStats
+			runtime.ReadMemStats(&ms)
+			if ms.Sys > 6<<30 {
+				fmt.Fprintln(os.Stderr, "C17 harness: memory watchdog (> 6 GiB) — aborting")
+				os.Exit(4)
+			}
+		}
+	}()
+}
+
+// F5 at the level of badger.Open: a real database directory whose MANIFEST tail is cut inside the
+// last record; rest missing => Open succeeds; rest zero-filled => Open fails (errBadChecksum).
+func (c *Ctx) m17OpenLevel() {
+	dir := c.m17NewDir()
+	defer os.RemoveAll(dir)
+	opt := badger.DefaultOptions(dir).WithLogger(nil).WithNumCompactors(0).
+		WithValueLogFileSize(1 << 20).WithValueThreshold(1 << 10)
+	db, err := badger.Open(opt)
+	if err != nil {
+		panic(err)
+	}
+	err = db.Update(func(txn *badger.Txn) error { return txn.Set([]byte("k"), []byte("v")) })
+	if err == nil {
+		err = db.Close() // flushes the memtable: one table, one MANIFEST record
+	}
+	if err != nil {
+		panic(err)
+	}
+	p := badger.VerifManifestPath(dir)
+	data, _ := os.ReadFile(p)
+	if len(data) <= 16+8+2 {
+		c.Count("open-level-skipped")
+		return
+	}
+	cut := len(data) - 2
+	rd := J17{"open_level": true, "filelen": len(data), "cut": cut}
+	// (1) rest missing
+	os.WriteFile(p, data[:cut], 0o600)
+	db, err = badger.Open(opt)
+	c.Oracle(err == nil, "open-truncated-manifest-failed", "badger.Open fails on a MANIFEST whose last record is cut (rest missing): "+fmt.Sprint(err), rd)
+	if err == nil {
+		db.Close()
+	}
+	// (2) rest zero-filled
+	os.WriteFile(p, append(append([]byte{}, data[:cut]...), make([]byte, len(data)-cut)...), 0o600)
+	db, err = badger.Open(opt)
+	sig := "open-zero-filled-manifest-failed"
+	if err != nil && badger.VerifManifestErrClass(err) == "badchecksum" {
+		sig = sigF5
+	}
+	c.Oracle(err == nil, sig, "badger.Open fails on a MANIFEST whose last record is cut and zero-filled: "+fmt.Sprint(err), rd)
+	if err == nil {
+		db.Close()
+	}
+}
+
 func runC17(c *Ctx) error {
+	m17MemoryWatchdog()
 	c.Setup("Uvarint Manifest CorrC17", "run_case")
 	thrC, ratioC, verC := badger.VerifManifestConsts()
 	c.Extra["manifest_consts"] = []int{thrC, ratioC, int(verC)} // the model reads them from gen/Consts.v
 	c.m17Witnesses()
+	c.m17OpenLevel()
 	c.m17AllCuts()
+	for i := 0; i < 12; i++ {
+		c.m17Boundary(i)
+	}
 	for i := 0; c.nCases < c.N; i++ {
 		switch {
+		case i%9 == 6:
+			c.m17Boundary(12 + i/9)
 		case i%3 == 0:
 			c.m17Sequence(i / 3)
 		case i%3 == 1:
